@@ -383,4 +383,63 @@ def serveAttempts (N : Net Addr Prefix) (cfg : Cfg Prefix) (c : Conn) (wire : Li
       (applyOmit cfg (fromWire wire))).map (fun h => proxyLoop ops h fails h)
 
 end
+
+/-! ### Caddyfile glue: how the options above are read
+httpcaddyfile/serveroptions.go (`trusted_proxies static …`, `trusted_proxies_strict`,
+`client_ip_headers …` of the global `servers` block), ip_range.go `StaticIPRange.UnmarshalCaddyfile`,
+reverseproxy/caddyfile.go (`trusted_proxies …` of the handler), shorthands.go (`{client_ip}`). -/
+
+def tokPrivateRanges : Bytes := [112, 114, 105, 118, 97, 116, 101, 95, 114, 97, 110, 103, 101, 115]
+/-- `{http.vars.client_ip}` -/
+def phClientIP : Bytes :=
+  [123, 104, 116, 116, 112, 46, 118, 97, 114, 115, 46, 99, 108, 105, 101, 110, 116, 95, 105, 112, 125]
+
+/-- `for d.NextArg() { if d.Val() == "private_ranges" { ranges = append(ranges, internal.PrivateRangesCIDR()...); continue }; ranges = append(ranges, d.Val()) }`
+    (the same loop in ip_range.go and reverseproxy/caddyfile.go); the list is regenerated from internal/ranges.go -/
+def expandRanges : List Bytes → List Bytes
+  | [] => []
+  | a :: rest => if a = tokPrivateRanges then Gen.privateRanges ++ expandRanges rest else a :: expandRanges rest
+
+/-- one `client_ip_headers` line: append, "specified more than once" is an error (`none`) -/
+def addClientIPHeaders : List Bytes → List Bytes → Option (List Bytes)
+  | acc, [] => some acc
+  | acc, h :: rest => if acc.contains h then none else addClientIPHeaders (acc ++ [h]) rest
+
+/-- all `client_ip_headers` lines, in file order -/
+def clientIPHeaderLines : List Bytes → List (List Bytes) → Option (List Bytes)
+  | acc, [] => some acc
+  | acc, l :: ls =>
+    match addClientIPHeaders acc l with
+    | none => none
+    | some acc' => clientIPHeaderLines acc' ls
+
+/-- `serverOpts.TrustedProxiesRaw = jsonSource` on every `trusted_proxies static` line: the last wins -/
+def lastLine : List (List Bytes) → Option (List Bytes)
+  | [] => none
+  | [l] => some l
+  | _ :: l :: ls => lastLine (l :: ls)
+
+/-- what the adapter hands to the server and to the handler -/
+structure Adapted where
+  srvRanges : Option (List Bytes)        -- none = no trusted_proxies source
+  strict : Bool
+  clientIPHeaders : Option (List Bytes)  -- none = nil (the Provision default applies)
+  rpRanges : List Bytes
+  clientIPShorthand : Bytes              -- what `{client_ip}` is replaced by
+deriving DecidableEq, Repr
+
+/-- the adapter on the four groups of lines; `strictLines` = number of `trusted_proxies_strict`
+    lines, `strictArg` = one of them carries an argument (ArgErr).  `none` = the adapter fails. -/
+def adaptOptions (srvLines : List (List Bytes)) (strictLines : Nat) (strictArg : Bool)
+    (cihLines rpLines : List (List Bytes)) : Option Adapted :=
+  if strictArg then none else
+  match clientIPHeaderLines [] cihLines with
+  | none => none
+  | some hs =>
+    some { srvRanges := (lastLine srvLines).map expandRanges
+           strict := decide (strictLines > 0)
+           clientIPHeaders := if hs.isEmpty then none else some hs
+           rpRanges := (rpLines.map expandRanges).flatten
+           clientIPShorthand := phClientIP }
+
 end CaddyModel.C10
